@@ -9,7 +9,9 @@
    [resolve e' self a]  what the expression [a] denotes inside package [self] whose import block is [e'].
    [renders x g]  x is the reflect.Type or the go/types Type presentation of g.
    The import tracker, ParseTypeRef and strconv.CanBackquote are universally quantified and constrained by the
-   named hypotheses [tracker_hyps] (property C03), [parse_hyp] (property C15) and [cbq_hyp] (Go's strconv). *)
+   named hypotheses [tracker_hyps], [tracker_not_predeclared], [tracker_lower_case] (property C03: C03_bijection /
+   C03_valid_names / add_fixed_bound, C03_not_predeclared_universe — true of the tracker after fixes/C03-3 —,
+   C03_local_name_is_lowercased_words), [parse_hyp] (property C15) and [cbq_hyp] (Go's strconv). *)
 Require Import Gengo.Base.Bytes Gengo.Model.TypeLit Gengo.Spec.TypeLit Gengo.Proofs.TypeLit.
 
 (* Rendering never panics on a type of the grammar. *)
@@ -36,6 +38,22 @@ Theorem C11_roundtrip :
 Proof. exact roundtrip. Qed.
 Print Assumptions C11_roundtrip.
 
+(* The same with the tracker fact C03 proves after fixes/C03-3 as a hypothesis: import names are never predeclared
+   identifiers (and the target file's tracker held none before).  Then every predeclared name the text uses
+   (string, error, any, int ...) is free by itself; what remains of [free_names] is [free_own_names]: no import
+   is called like one of the target package's OWN types occurring in g. *)
+Theorem C11_roundtrip_no_predeclared_imports :
+  forall pick parse_tref self can_backquote,
+    tracker_hyps pick -> tracker_not_predeclared pick -> parse_hyp parse_tref -> cbq_hyp can_backquote ->
+  forall x g e a e',
+    renders x g -> in_domain all_tags self g = true -> tracker_inv self e -> no_predeclared_names e ->
+    ident_frag pick parse_tref self can_backquote true true x e = Ok (a, e') ->
+    free_own_names self g e' ->
+    no_predeclared_names e' /\ resolve e' self a = Some (canon g).
+Proof. exact (fun pick parse_tref self can_backquote Ht Hn Hp Hc x g e a e' =>
+                roundtrip_no_predeclared_imports pick parse_tref self can_backquote Ht Hp Hc x g e a e' Hn). Qed.
+Print Assumptions C11_roundtrip_no_predeclared_imports.
+
 (* The tracker afterwards: what was there is kept (in place), it is still a bijection that does not import the
    target package, and the registered paths are exactly the old ones plus the foreign packages occurring in g. *)
 Theorem C11_imports_exact :
@@ -49,13 +67,13 @@ Theorem C11_imports_exact :
 Proof. exact imports_exact. Qed.
 Print Assumptions C11_imports_exact.
 
-(* The side condition [free_names] of C11_roundtrip holds by itself when import names are lower-case and not
-   predeclared identifiers and the target package's own types that occur are exported. *)
+(* No side condition at all is left when, besides, import names are lower-case ([tracker_lower_case], C03 on
+   ASCII paths) and the target package's own types that occur are exported. *)
 Theorem C11_roundtrip_exported_locals :
   forall pick parse_tref self can_backquote,
     tracker_hyps pick -> parse_hyp parse_tref -> cbq_hyp can_backquote ->
   forall x g e a e',
-    (forall p e n, pick p e = Some n -> lower_name n) ->
+    tracker_not_predeclared pick -> tracker_lower_case pick ->
     renders x g -> in_domain all_tags self g = true -> locals_exported self g = true ->
     tracker_inv self e -> Forall lower_name (map snd e) ->
     ident_frag pick parse_tref self can_backquote true true x e = Ok (a, e') ->
@@ -81,9 +99,21 @@ Theorem C11_tag_refuted_before_fix :
 Proof. exact tag_refuted_before_fix. Qed.
 Print Assumptions C11_tag_refuted_before_fix.
 
-(* The hypotheses about the tracker are satisfiable. *)
-Theorem C11_tracker_hyps_satisfiable : tracker_hyps pick_long.
-Proof. exact tracker_hyps_sat. Qed.
+(* History: before fixes/C03-3 a package .../string was imported as `string` (C03_not_predeclared_refuted_before_fix);
+   such a tracker satisfies [tracker_hyps], not [tracker_not_predeclared], and struct{A string; B string.T} reads back as
+   nothing: in the text, `string` is the package. *)
+Theorem C11_import_name_predeclared_refuted_before_fix :
+  tracker_hyps pick_last_segment /\
+  in_domain all_tags (bs "t") g_string_clash = true /\
+  exists a e', ident_frag pick_last_segment parse_only_T (bs "t") (fun _ => true) true true (IdT (view_of g_string_clash)) [] = Ok (a, e')
+               /\ e' = [(bs "x/string", bs "string")] /\ resolve e' (bs "t") a = None.
+Proof. exact import_name_predeclared_refuted_before_fix. Qed.
+Print Assumptions C11_import_name_predeclared_refuted_before_fix.
+
+(* The hypotheses about the tracker are satisfiable, separately and together. *)
+Theorem C11_tracker_hyps_satisfiable :
+  tracker_hyps pick_long /\ (tracker_hyps pick_q /\ tracker_not_predeclared pick_q /\ tracker_lower_case pick_q).
+Proof. exact (conj tracker_hyps_sat tracker_hyps_c03_sat). Qed.
 Print Assumptions C11_tracker_hyps_satisfiable.
 
 (* non-vacuity: struct{ E error; L a/o.List[b/o.Item] `json:"l"` } rendered into package t, whose file already
